@@ -157,6 +157,7 @@ def nest_texts(draw):
             "%sw = {'k': [i for i in %s], tuple(j for j in %s): 1, 2: [k for k in %s]}",
             "%sw = [i for i in %s] if [j for j in %s] else [k for k in %s] if %s else 0".replace("%s else 0", "0 else 0"),
             "%sw = sum(i for i in %s) < len([j for j in %s]) < max(k for k in %s)",
+            "%sw = sum(x for x in %s) + sum(y for y in %s) + sum(z for z in %s)",
         ])) % (ind, a, b, c))
     if tail == "comp":
         lines.append("%sw = [%s for i in %s]" % (ind, draw(st.sampled_from(names)), draw(st.sampled_from(names))))
@@ -603,24 +604,35 @@ def evaluate(case, env):
             for ref, rp in pairs:
                 if ref.kind != "comp" or rp is None or not getattr(ref.node, "generators", None):
                     continue
-                tgt = ref.node.generators[0].target
-                off = starts[tgt.lineno - 1] + len(lines[tgt.lineno - 1].encode("utf-8")[: tgt.col_offset].decode("utf-8"))
-                out.evals += 1
-                try:
-                    g3 = gscope.get_inner_scope_for_offset(off)
-                except rex.RopeError:
-                    out.notes["offset_variant_refused"] += 1
-                    continue
-                except Exception as e:
-                    vio("holding_scope_raised:" + type(e).__name__, "offset %d: %r" % (off, e))
-                    break
-                out.labels["offset_inside_comprehension"] += 1
-                if g3 is not rp:
-                    vio(
-                        "holding_scope_offset:comp",
-                        "offset %d (%r, line %d) lies in the comprehension of line %d; rope answers %s at line %s"
-                        % (off, src[off:off + 12], tgt.lineno, ref.start, _rope_kind(g3) if g3 is not None else None, g3.get_start() if g3 is not None else None),
-                    )
+                probes = [ref.node.generators[0].target]
+                elt = getattr(ref.node, "elt", None) or getattr(ref.node, "key", None)
+                if isinstance(elt, ast.Name):
+                    # the element: for a generator expression that is the sole argument of a call it is the very first
+                    # character of the comprehension
+                    probes.append(elt)
+                stop = False
+                for tgt in probes:
+                    off = starts[tgt.lineno - 1] + len(lines[tgt.lineno - 1].encode("utf-8")[: tgt.col_offset].decode("utf-8"))
+                    out.evals += 1
+                    try:
+                        g3 = gscope.get_inner_scope_for_offset(off)
+                    except rex.RopeError:
+                        out.notes["offset_variant_refused"] += 1
+                        continue
+                    except Exception as e:
+                        vio("holding_scope_raised:" + type(e).__name__, "offset %d: %r" % (off, e))
+                        stop = True
+                        break
+                    out.labels["offset_inside_comprehension"] += 1
+                    if g3 is not rp:
+                        vio(
+                            "holding_scope_offset:comp",
+                            "offset %d (%r, line %d) lies in the comprehension of line %d; rope answers %s at line %s"
+                            % (off, src[off:off + 12], tgt.lineno, ref.start, _rope_kind(g3) if g3 is not None else None, g3.get_start() if g3 is not None else None),
+                        )
+                        stop = True
+                        break
+                if stop:
                     break
 
     deep = any(r.parent is not None and r.parent.parent is not None for r, _ in pairs) or nscopes >= 3
